@@ -11,6 +11,7 @@
    length a = prod naxes. The theorems hold for EVERY shape [naxes] and every [monodim]. *)
 From Coq Require Import List ZArith Bool PeanoNat Lia QArith Qcanon Reals.
 From PS Require Import Arith EvalModel BSpline OFieldKit C01_Basis C04_Proofs Generated_nnls NnlsModel C11_Spec C11_KKT_Proofs MonoModel C10_Cumsum C10_Proofs C10_Surface C10_IEEE.
+From PS Require FitModel C09_LinAlg C09_Penalty C09_Index C09_Top MonoFitModel C10_Congruence C10_Inactive.
 Import ListNotations.
 
 (* ---- the loop, for any carrier and any addition ---------------------------------------------------------------- *)
@@ -92,6 +93,112 @@ Theorem C10_tsystem_solution : forall (M AB : list (list K)) (b rB cstar z : lis
   mv AB cstar = rB -> cums z = cstar -> mv M z = b.
 Proof. exact (tsystem_solution). Qed.
 End OrderedField.
+
+(* ---- the system of the monotone fit is the congruence transform of the system of the unconstrained fit (after fix F28_1) ---- *)
+(* Vocabulary (MonoFitModel.v, FitModel.v, C09_*.v). [fit_system dims smoothing porders data] = the normal system (matrix, rhs) the
+   unconstrained fit hands to cholesky_solve (C09); [fit_system_mono dims md ...] = the system the fit that is monotonic along
+   dimension md hands to nnls_normal_block3, built as the code builds it: T-spline basis (basis * cholmod_tril) in slot md of the
+   GLAM arithmetic, and calc_penalty with  finitediff * tril  for the term of dimension md and  tril' tril  in slot md of the
+   Kronecker product for the terms of the OTHER dimensions (the fix of D28; before, that factor was the identity).
+   [Lbig ns md] = I x .. x tril x .. x I (tril in slot md), the cumulative sum along md as a matrix; [vecmat p M n] = the row
+   vector p times M (= M' p); [tripleT L n (w, p, z)] = (w, p L, z); [objective_triples] = C09's list of (weight, row, value)
+   triples whose weighted residual sum of squares [wrss] is the penalised objective of C09 (data triples ++ penalty triples);
+   [nmat n E] = sum w p p', [nrhs n E] = sum w z p. Every theorem: every number of dimensions >= 1, every md (md >= ndim = none). *)
+Section MonotoneSystem.
+Import FitModel C09_LinAlg C09_Penalty C09_Index C09_Top MonoFitModel C10_Congruence C10_Inactive.
+Context {A : Arith}.
+Variable F : OField A.
+Notation K := (T A).
+Notation le := (@OFieldKit.le A).
+
+(* each penalty term: calc_penalty(dim, monodim) = (P_root Lbig)' (P_root Lbig) = Lbig' P_dim Lbig,  P_dim = P_root' P_root (C09_penalty_is_DtD) *)
+Theorem C10_penalty_term_in_tbasis : forall (nsplines : list nat) (kn : nat -> K) (dim order porder md : nat), nsplines <> [] ->
+  let N := fold_right Nat.mul 1%nat nsplines in
+  calc_penalty_mono nsplines kn dim order porder md
+  = gram N (mmul (penalty_root nsplines kn dim order porder) (Lbig nsplines md) N).
+Proof.
+  intros nsplines kn dim order porder md Hne N.
+  rewrite (proj1 (calc_penalty_mono_is_gram F nsplines kn dim order porder md Hne)).
+  rewrite (penalty_root_mono_is_product F nsplines kn dim order porder md Hne). reflexivity.
+Qed.
+(* without a monotonic dimension calc_penalty is what it was *)
+Theorem C10_calc_penalty_unchanged_without_monodim : forall (nsplines : list nat) (kn : nat -> K) (dim order porder md : nat),
+  (length nsplines <= md)%nat -> (dim < length nsplines)%nat ->
+  calc_penalty_mono nsplines kn dim order porder md = calc_penalty nsplines kn dim order porder.
+Proof. exact (@calc_penalty_mono_none A). Qed.
+
+(* the whole system: the normal system of C09's objective triples in the variables a, c = Lbig a *)
+Theorem C10_tsystem_is_congruence : forall (dims : list dimspec) (md : nat) (smoothing : list K) (porders : list nat) (data : list (list N * K * K)),
+  dims <> [] ->
+  Forall (fun e => valid_idx (map (fun d => N.of_nat (length (ds_coords d))) dims) (fst (fst e))) data ->
+  let ns := map ds_nsplines dims in
+  let n := fold_right Nat.mul 1%nat ns in
+  let ET := map (tripleT (Lbig ns md) n) (objective_triples dims smoothing porders data) in
+  fit_system_mono dims md smoothing porders data = (nmat n ET, nrhs n ET) /\ wf_rows n ET.
+Proof. exact (fit_system_mono_is_congruence F). Qed.
+
+(* its objective at the T-spline coefficients a is the penalised objective of C09 at the B-spline coefficients Lbig a *)
+Theorem C10_tsystem_objective : forall (dims : list dimspec) (md : nat) (smoothing : list K) (porders : list nat) (data : list (list N * K * K)),
+  dims <> [] ->
+  Forall (fun e => valid_idx (map (fun d => N.of_nat (length (ds_coords d))) dims) (fst (fst e))) data ->
+  let ns := map ds_nsplines dims in
+  let n := fold_right Nat.mul 1%nat ns in
+  forall a, length a = n ->
+  wrss (map (tripleT (Lbig ns md) n) (objective_triples dims smoothing porders data)) a
+  = add (wrss (data_triples dims data) (matvec (Lbig ns md) a)) (wrss (pen_triples dims smoothing porders) (matvec (Lbig ns md) a)).
+Proof. intros dims md smoothing porders data Hd Hv ns n a Ha. exact (mono_objective F dims md smoothing porders data Hd Hv a Ha). Qed.
+
+(* A_T = Lbig' A_B Lbig and r_T = Lbig' r_B, as operators *)
+Theorem C10_tsystem_operator : forall (dims : list dimspec) (md : nat) (smoothing : list K) (porders : list nat) (data : list (list N * K * K)),
+  dims <> [] ->
+  Forall (fun e => valid_idx (map (fun d => N.of_nat (length (ds_coords d))) dims) (fst (fst e))) data ->
+  let ns := map ds_nsplines dims in
+  let n := fold_right Nat.mul 1%nat ns in
+  let sysB := fit_system dims smoothing porders data in
+  let sysT := fit_system_mono dims md smoothing porders data in
+  (forall a, length a = n -> matvec (fst sysT) a = vecmat (matvec (fst sysB) (matvec (Lbig ns md) a)) (Lbig ns md) n)
+  /\ snd sysT = vecmat (snd sysB) (Lbig ns md) n.
+Proof. intros dims md smoothing porders data Hd Hv. exact (mono_system_operator F dims md smoothing porders data Hd Hv). Qed.
+
+Hypothesis ofZ_two' : @ofZ A 2 = add one one.
+(* THE SECOND SENTENCE OF C10 for the model, exact arithmetic: if the solution c* of the unconstrained fit's normal equations is
+   Lbig z with z >= 0 (its increments along md are non-negative: the constraint is inactive) then every KKT point x of the
+   non-negative least-squares problem of the monotone fit (what nnls_normal_block3 returns, C11_block3_exit_kkt) is z, and the
+   coefficients Lbig x that the back-transformation produces are c*. *)
+Theorem C10_inactive_fit_returns_unconstrained : forall (dims : list dimspec) (md : nat) (smoothing : list K) (porders : list nat) (data : list (list N * K * K)),
+  dims <> [] ->
+  Forall (fun e => valid_idx (map (fun d => N.of_nat (length (ds_coords d))) dims) (fst (fst e))) data ->
+  let ns := map ds_nsplines dims in
+  let n := fold_right Nat.mul 1%nat ns in
+  let sysB := fit_system dims smoothing porders data in
+  let sysT := fit_system_mono dims md smoothing porders data in
+  forall cstar z x : list K,
+  C09_LinAlg.spd n (fst sysT) -> length z = n -> length x = n ->
+  matvec (fst sysB) cstar = snd sysB ->
+  matvec (Lbig ns md) z = cstar -> C11_Spec.nonneg z ->
+  kkt (fst sysT) (snd sysT) x ->
+  x = z /\ matvec (Lbig ns md) x = cstar.
+Proof.
+  intros dims md smoothing porders data Hd Hv ns n sysB sysT cstar z x.
+  exact (inactive_fit_returns_unconstrained F dims md smoothing porders data Hd Hv ofZ_two' cstar z x).
+Qed.
+(* a solution of the T-basis system minimises C09's penalised objective over all coefficient vectors Lbig a *)
+Theorem C10_tsystem_solution_minimises : forall (dims : list dimspec) (md : nat) (smoothing : list K) (porders : list nat) (data : list (list N * K * K)),
+  dims <> [] ->
+  Forall (fun e => valid_idx (map (fun d => N.of_nat (length (ds_coords d))) dims) (fst (fst e))) data ->
+  let ns := map ds_nsplines dims in
+  let n := fold_right Nat.mul 1%nat ns in
+  let sysT := fit_system_mono dims md smoothing porders data in
+  let E := objective_triples dims smoothing porders data in
+  forall z, length z = n ->
+  Forall (fun e => le zero (snd e)) data -> Forall (fun l => le zero l) smoothing ->
+  matvec (fst sysT) z = snd sysT ->
+  forall a, length a = n -> le (wrss E (matvec (Lbig ns md) z)) (wrss E (matvec (Lbig ns md) a)).
+Proof.
+  intros dims md smoothing porders data Hd Hv ns n sysT E z Hz Hw Hs Hsol a Ha.
+  exact (mono_solution_minimises F dims md smoothing porders data Hd Hv z Hz Hw Hs Hsol a Ha).
+Qed.
+End MonotoneSystem.
 
 (* ---- IEEE binary32 (Flocq): Bplus, round to nearest even ------------------------------------------------------- *)
 Theorem C10_cumsum_monotone_ieee : forall (naxes : list nat) (md : nat) (a : list b32),
@@ -192,6 +299,41 @@ Proof.
   - vm_compute. reflexivity.
 Qed.
 
+(* the monotone system on a concrete instance: 2 dimensions, linear splines, 2 x 3 coefficients, irregular knots, smoothing 1 and
+   penalty order 1 in BOTH dimensions, four data entries; monotonic along dimension 1 and along dimension 0. The hypotheses of
+   C10_tsystem_is_congruence hold; evaluated at Qc the matrix IS Lbig' A Lbig with A the matrix of the unconstrained fit, and Lbig a
+   is the cumulative sum along the monotonic dimension (= MonoModel.backtransform in exact arithmetic). The penalty term of the
+   other dimension differs from the B-basis term that the code used before fix F28_1 (entry (0,0): 3 = 1 * (tril' tril)[0][0] instead of 1). *)
+Module Ex.
+Import FitModel C09_LinAlg C09_Penalty C09_Index C09_Top MonoFitModel C10_Congruence.
+Definition exq (a : Z) (b : positive) : T QcA := Q2Qc (a # b).
+Definition exdims : list (@dimspec QcA) :=
+  [ mkDim 1 [exq 0 1; exq 1 1; exq 2 1; exq 3 1] [exq 1 2; exq 3 2; exq 5 2];
+    mkDim 1 [exq 0 1; exq 2 1; exq 3 1; exq 5 1; exq 6 1] [exq 1 1; exq 5 2] ].
+Definition exdata : list (list N * T QcA * T QcA) :=
+  [ ([0; 0]%N, exq 1 1, exq 2 1); ([1; 1]%N, exq 3 1, exq 1 1); ([2; 0]%N, exq (-1) 1, exq 1 2); ([1; 1]%N, exq 2 1, exq 3 1) ].
+Definition exsm : list (T QcA) := [exq 1 1; exq 1 1].
+Definition exL (md : nat) : list (list (T QcA)) := Lbig [2; 3]%nat md.
+Example C10_example_tsystem :
+  exdims <> []
+  /\ Forall (fun e => valid_idx (map (fun d => N.of_nat (length (ds_coords d))) exdims) (fst (fst e))) exdata
+  /\ map ds_nsplines exdims = [2; 3]%nat
+  /\ (forall md, In md [0; 1]%nat ->
+        fst (fit_system_mono exdims md exsm [1; 1]%nat exdata)
+        = mmul (transpose 6 (exL md)) (mmul (fst (fit_system exdims exsm [1; 1]%nat exdata)) (exL md) 6) 6
+        /\ snd (fit_system_mono exdims md exsm [1; 1]%nat exdata) = vecmat (snd (fit_system exdims exsm [1; 1]%nat exdata)) (exL md) 6
+        /\ matvec (exL md) (map qz [1; 0; 2; 0; 1; 0]%Z) = @glam_backtransform QcA [2; 3]%nat md (map qz [1; 0; 2; 0; 1; 0]%Z))
+  /\ fst (fit_system_mono exdims 1 exsm [1; 1]%nat exdata) <> fst (fit_system exdims exsm [1; 1]%nat exdata)
+  /\ nth 0 (nth 0 (calc_penalty_mono (A := QcA) [2; 3]%nat (fun i => exq (Z.of_nat i) 1) 0 1 1 1) []) zero = exq 3 1
+  /\ nth 0 (nth 0 (calc_penalty (A := QcA) [2; 3]%nat (fun i => exq (Z.of_nat i) 1) 0 1 1) []) zero = exq 1 1.
+Proof.
+  split; [discriminate|]. split; [vm_compute; repeat constructor|]. split; [reflexivity|]. split.
+  - intros md [<-|[<-|[]]]; (split; [apply C10_Inactive.qc_mat_this_inj; vm_compute; reflexivity|]; split; apply C10_Inactive.qc_list_this_inj; vm_compute; reflexivity).
+  - split; [|split; vm_compute; reflexivity].
+    intro H. apply (f_equal (fun M : list (list Qc) => this (nth 0 (nth 0 M []) (Q2Qc 0)))) in H. vm_compute in H. discriminate H.
+Qed.
+End Ex.
+
 Print Assumptions C10_backtransform_spec.
 Print Assumptions C10_backtransform_length.
 Print Assumptions C10_cumsum_monotone_gen.
@@ -207,3 +349,10 @@ Print Assumptions C10_flocq_round_laws.
 Print Assumptions C10_cumsum_monotone_rd32.
 Print Assumptions C10_Bfun_nonneg.
 Print Assumptions C10_coeff_monotone_implies_surface.
+Print Assumptions C10_penalty_term_in_tbasis.
+Print Assumptions C10_calc_penalty_unchanged_without_monodim.
+Print Assumptions C10_tsystem_is_congruence.
+Print Assumptions C10_tsystem_objective.
+Print Assumptions C10_tsystem_operator.
+Print Assumptions C10_inactive_fit_returns_unconstrained.
+Print Assumptions C10_tsystem_solution_minimises.
